@@ -3,7 +3,7 @@
      O flag val | A flag n val.. | I file | U file | E | R | G n (flag val).. | C user owner bits n (flag val)..
      P n (file pw|~ range|~).. | V n (file m (flag val)..)..  (overlay) | W ... (underlay)
      T n (m word..)..  (add-attachment; word = f file | o flag val) | Y ... (copy-attachments-from) | L n word..
-   result:  <ok 0|1> <call>;<call>;.. | <argv word> .. | <json tokens as in h_job.ml> | <argv words, --encrypt in its dashed spelling>
+   result:  <ok 0|1> <call>;<call>;.. | <argv word> .. | <json tokens as in h_job.ml> | <argv words, --encrypt in its dashed spelling> | <the same, empty-password options left out>
    an option that is not in the generated table: result "?noentry <table> <flag>" *)
 open Qvmodel
 open Runner
@@ -98,6 +98,7 @@ let () =
         (match cs with [] -> "-" | l -> String.concat ";" (List.map xshow_call l)) ^ " | " ^
         String.concat " " (List.map hexbytes (xj_render_argv (named = "1") j)) ^ " | " ^
         String.concat " " (xshow_jv (xj_render_json j)) ^ " | " ^
-        String.concat " " (List.map hexbytes (xd_render_argv (named = "1") j))
+        String.concat " " (List.map hexbytes (xd_render_argv (named = "1") j)) ^ " | " ^
+        String.concat " " (List.map hexbytes (xo_render_argv (named = "1") j))
       with No_entry (t, f) -> "?noentry " ^ t ^ " " ^ f)
     | _ -> "?args")
